@@ -46,6 +46,8 @@ def shards(tier, seed):
 def gen_case(rng, rkind, pt_sub, sh_sub):
     G = 6
     nl = int(rng.choice([0, 1, 5, 9, 14, 25, 40]))
+    if rng.random() < 0.06:
+        nl = int(rng.choice([600, 1300]))          # an index of several pages and levels on the left frame
     nr = int(rng.choice([0, 1, 2, 3, 5, 8, 8]))
     integer_pts = not pt_sub.startswith("float")
     # right shapes: overlapping on purpose
